@@ -65,6 +65,14 @@ CHECKS = {
         {"entry": M + ".HarnessC01T4", "pkgs": CORE, "must_reach": ["c01-end"], "tiers": ["thorough"]},
         {"entry": M + ".HarnessC01T3", "pkgs": CORE, "must_reach": ["c01-end"], "tiers": ["thorough"]},
     ]},
+    "C03": {"runs": [
+        {"entry": M + ".HarnessC03A2", "pkgs": CORE, "must_reach": ["c03-end"]},
+        {"entry": M + ".HarnessC03B2", "pkgs": CORE, "must_reach": ["c03-end"]},
+        {"entry": M + ".HarnessC03C2", "pkgs": CORE, "must_reach": ["c03-end"]},
+        {"entry": M + ".HarnessC03D2", "pkgs": CORE, "must_reach": ["c03-end"], "native_timeout": 120},
+        {"entry": M + ".HarnessC03ConfigRecursive", "pkgs": CORE, "native_timeout": 120},
+        {"entry": M + ".HarnessC03A3", "pkgs": CORE, "must_reach": ["c03-end"], "tiers": ["thorough"]},
+    ]},
     "C05": {"runs": [
         {"entry": M + ".HarnessC05Quick", "pkgs": CORE, "must_reach": ["c05-end"], "instrument": [M], "validate": 0},
         {"entry": M + ".HarnessC05Seq", "pkgs": CORE, "must_reach": ["c05-end"], "instrument": [M], "validate": 0},
